@@ -233,6 +233,36 @@ func payloadOf(e pb.Entry) int {
 	return -2
 }
 
+// simpleCC describes a conf-change entry that changes exactly one voter without a joint transition the way
+// spec/EtcdRaft.tla writes it: +id = ConfChangeAddNode id, -id = ConfChangeRemoveNode id; 0 = anything else.
+func simpleCC(e pb.Entry) int {
+	var v2 pb.ConfChangeV2
+	switch e.Type {
+	case pb.EntryConfChange:
+		var cc pb.ConfChange
+		if cc.Unmarshal(e.Data) != nil {
+			return 0
+		}
+		v2 = cc.AsV2()
+	case pb.EntryConfChangeV2:
+		if len(e.Data) == 0 || v2.Unmarshal(e.Data) != nil {
+			return 0
+		}
+	default:
+		return 0
+	}
+	if _, joint := v2.EnterJoint(); joint || len(v2.Changes) != 1 {
+		return 0
+	}
+	switch ch := v2.Changes[0]; ch.Type {
+	case pb.ConfChangeAddNode:
+		return int(ch.NodeID)
+	case pb.ConfChangeRemoveNode:
+		return -int(ch.NodeID)
+	}
+	return 0
+}
+
 // ready runs the Ready/persist/apply/Advance cycle of n until nothing is pending.
 func (c *Cluster) ready(n *Node) {
 	if n.held != nil { // the application is still busy with the previous Ready: raft keeps stepping, nothing new is handed out
@@ -325,6 +355,7 @@ type EntD struct {
 	T uint64 `json:"t"`
 	P int    `json:"p"`
 	Y int    `json:"y"`
+	C int    `json:"c"` // simple conf change: +id add voter, -id remove voter (see simpleCC)
 }
 
 type MsgD struct {
@@ -356,7 +387,7 @@ func describe(m pb.Message) MsgD {
 		d.Ty = m.Type.String()
 	}
 	for _, e := range m.Entries {
-		d.Es = append(d.Es, EntD{T: e.Term, P: payloadOf(e), Y: int(e.Type)})
+		d.Es = append(d.Es, EntD{T: e.Term, P: payloadOf(e), Y: int(e.Type), C: simpleCC(e)})
 	}
 	if m.Type == pb.MsgSnap {
 		d.Si, d.St = m.Snapshot.Metadata.Index, m.Snapshot.Metadata.Term
@@ -364,7 +395,21 @@ func describe(m pb.Message) MsgD {
 	return d
 }
 
+// key identifies a message. Messages that come from the specification carry no entry type: a conf-change
+// entry (c != 0) of the specification is a raftpb.EntryConfChange.
 func (a MsgD) key() string {
+	for k := range a.Es {
+		if a.Es[k].C != 0 && a.Es[k].Y == 0 {
+			es := append([]EntD{}, a.Es...)
+			for j := range es {
+				if es[j].C != 0 && es[j].Y == 0 {
+					es[j].Y = int(pb.EntryConfChange)
+				}
+			}
+			a.Es = es
+			break
+		}
+	}
 	b, _ := json.Marshal(a)
 	return string(b)
 }
@@ -390,6 +435,7 @@ type LogD struct {
 	T uint64 `json:"t"`
 	P int    `json:"p"`
 	Y int    `json:"y"`
+	C int    `json:"c"`
 }
 
 type PrD struct {
@@ -449,7 +495,7 @@ func (c *Cluster) project(n *Node) NodeD {
 			panic(fmt.Sprintf("raftsim: Entries(%d,%d): %v", first, last+1, err))
 		}
 		for _, e := range ents {
-			d.Log = append(d.Log, LogD{I: e.Index, T: e.Term, P: payloadOf(e), Y: int(e.Type)})
+			d.Log = append(d.Log, LogD{I: e.Index, T: e.Term, P: payloadOf(e), Y: int(e.Type), C: simpleCC(e)})
 		}
 	}
 	d.HS = HSD{n.d.hs.Term, n.d.hs.Vote, n.d.hs.Commit}
